@@ -392,3 +392,151 @@ func H09u() {
 		}
 	}
 }
+
+// H09d: what a derivation chain hands on besides units/default/pattern/length (H09b): the base
+// kind and the enum set, bit set, fraction-digits (with the range that follows from them), leafref
+// path and union members, through 1..3 typedef levels, each level with or without units and a
+// default of its own (nearest wins), seen from a leaf with or without a default of its own
+// (DefaultValues: the leaf's, else the type's).
+func H09d() {
+	kind := symChoice(5)
+	depth := 1 + symChoice(3)
+	dig := func() byte {
+		d := symByte()
+		assume(d >= '1')
+		assume(d <= '9')
+		return d
+	}
+	var base, defval string
+	var v1, v2 byte
+	fd := 0
+	switch kind {
+	case 0:
+		v1 = dig()
+		base = `type enumeration { enum a; enum b { value ` + string([]byte{v1}) + `; } enum c; }`
+		defval = "b"
+	case 1:
+		v1 = dig()
+		base = `type bits { bit x; bit y { position ` + string([]byte{v1}) + `; } bit z; }`
+		defval = "y"
+	case 2:
+		fd = symRange(1, 18)
+		v2 = dig()
+		base = `type decimal64 { fraction-digits ` + hItoa(int64(fd)) + `; range "-` + string([]byte{v2}) + `..` + string([]byte{v2}) + `"; }`
+		defval = "1"
+	case 3:
+		base = `type leafref { path "/m:tgt"; }`
+		defval = "q"
+	case 4:
+		base = `type union { type int8; type string { pattern "pu"; } type enumeration { enum k; } }`
+		defval = "k"
+	}
+	type lvl struct{ units, def bool }
+	var l [3]lvl
+	src := `module m { namespace "urn:m"; prefix m; leaf tgt { type string; } `
+	prev := ""
+	for i := 0; i < depth; i++ {
+		l[i] = lvl{symBool(), symBool()}
+		name := "t" + string([]byte{'1' + byte(i)})
+		src += `typedef ` + name + ` { `
+		if i == 0 {
+			src += base
+		} else {
+			src += `type ` + prev + `;`
+		}
+		if l[i].units {
+			src += ` units "u` + string([]byte{'1' + byte(i)}) + `";`
+		}
+		if l[i].def {
+			src += ` default "` + defval + `";`
+		}
+		src += ` } `
+		prev = name
+	}
+	leafDef := symBool()
+	src += `leaf x { type ` + prev + `;`
+	if leafDef {
+		src += ` default "` + defval + defval + `";`
+	}
+	src += ` } }`
+	note(src)
+	ms, lerrs := hLoad(src)
+	check(len(lerrs) == 0, "the module parses")
+	errs := ms.Process()
+	check(len(errs) == 0, "the module processes")
+	if len(errs) > 0 {
+		return
+	}
+	reach("resolved")
+	e := ToEntry(ms.Modules["m"]).Dir["x"]
+	check(e != nil && e.Type != nil, "leaf resolved")
+	if e == nil || e.Type == nil {
+		return
+	}
+	t := e.Type
+	units, hasDef := "", false
+	for i := 0; i < depth; i++ {
+		if l[i].units {
+			units = "u" + string([]byte{'1' + byte(i)})
+		}
+		if l[i].def {
+			hasDef = true
+		}
+	}
+	check(t.Units == units, "units: nearest definition in the chain wins")
+	check(t.HasDefault == hasDef, "default: carried by the chain exactly when some level defines one")
+	if hasDef {
+		check(t.Default == defval, "default: the chain's value")
+	}
+	dv := e.DefaultValues()
+	switch {
+	case leafDef:
+		check(len(dv) == 1 && dv[0] == defval+defval, "DefaultValues: the leaf's own default wins over the type's")
+	case hasDef:
+		check(len(dv) == 1 && dv[0] == defval, "DefaultValues: the type's default when the leaf has none")
+	default:
+		check(len(dv) == 0, "DefaultValues: none anywhere")
+	}
+	check(t.Name == prev, "the resolved type is named as referenced")
+	switch kind {
+	case 0:
+		check(t.Kind == Yenum, "base kind of the chain")
+		check(t.Enum != nil, "enum set of the chain")
+		if t.Enum != nil {
+			nm := t.Enum.NameMap()
+			w := int64(v1 - '0')
+			check(len(nm) == 3 && nm["a"] == 0 && nm["b"] == w && nm["c"] == w+1, "enum set of the chain: names and values")
+			check(t.Enum.ValueMap()[w] == "b", "enum set of the chain: value view")
+		}
+		check(t.Bit == nil && len(t.Type) == 0 && t.Path == "", "nothing else is carried")
+	case 1:
+		check(t.Kind == Ybits, "base kind of the chain")
+		check(t.Bit != nil, "bit set of the chain")
+		if t.Bit != nil {
+			nm := t.Bit.NameMap()
+			w := int64(v1 - '0')
+			check(len(nm) == 3 && nm["x"] == 0 && nm["y"] == w && nm["z"] == w+1, "bit set of the chain: names and positions")
+		}
+		check(t.Enum == nil && len(t.Type) == 0 && t.Path == "", "nothing else is carried")
+	case 2:
+		check(t.Kind == Ydecimal64, "base kind of the chain")
+		check(t.FractionDigits == fd, "fraction-digits of the chain")
+		check(len(t.Range) == 1, "range of the chain")
+		if len(t.Range) == 1 {
+			mant := mMulPow10(mU(uint64(v2-'0')), fd)
+			check(mEq(h10Val(t.Range[0].Min), mNeg(mant)) && mEq(h10Val(t.Range[0].Max), mant), "range of the chain, scaled to its fraction-digits")
+			check(int(t.Range[0].Min.FractionDigits) == fd && int(t.Range[0].Max.FractionDigits) == fd, "range bounds carry the fraction-digits")
+		}
+	case 3:
+		check(t.Kind == Yleafref, "base kind of the chain")
+		check(t.Path == "/m:tgt", "path of the chain")
+	case 4:
+		check(t.Kind == Yunion, "base kind of the chain")
+		check(len(t.Type) == 3, "union members of the chain")
+		if len(t.Type) == 3 {
+			check(t.Type[0].Kind == Yint8 && t.Type[1].Kind == Ystring && t.Type[2].Kind == Yenum, "union members in written order")
+			check(len(t.Type[1].Pattern) == 1 && t.Type[1].Pattern[0] == "pu", "union member keeps its restriction")
+			check(t.Type[2].Enum != nil && t.Type[2].Enum.Value("k") == 0 && len(t.Type[2].Enum.NameMap()) == 1, "union member keeps its enum set")
+		}
+	}
+}
